@@ -231,6 +231,8 @@ class IcaseComponent(Component):
 
     def make(self, rng, params):
         alph = params.get("alphabet") or "".join(chr(c) for c in range(32, 127))
+        if not params.get("alphabet") and rng.random() < 0.3:
+            alph = "".join(chr(c) for c in range(32, 127)) + 3 * "".join(chr(c) for c in range(160, 256))
         n = params.get("maxlen", 8)
         a = "".join(rng.choice(alph) for _ in range(rng.randint(0, n)))
         r = rng.random()
@@ -252,9 +254,12 @@ class IcaseComponent(Component):
         m = jsonable(res["model"][0])
         i = jsonable([int(impl[0]), int(impl[1]), int(impl[2]), int(impl[3])] + list(impl[4:]))
         # hash: equal strings must hash equally (unequal ones may collide)
+        a, b = case["a"], case["b"]
+        if any(ch in a for ch in "\u00b5\u00df\u00ff"):
+            # str.upper of these three leaves Latin-1 / changes length: outside the modelled domain of upper
+            m, i = m[:6], i[:6]
         agree = m[:2] == i[:2] and m[3:] == i[3:]
         checks = {"C18": [(not impl[0]) or bool(impl[2]), "equal keys hash equally"]}
-        a, b = case["a"], case["b"]
         return std_report(case, agree, m, i, checks,
                           tags=[f"eq:{int(impl[0])}", f"lt:{int(impl[1])}", f"in:{int(impl[3])}"],
                           nontrivial=a != b and (a.lower() == b.lower() or len(a) > 0 and len(b) > 0))
@@ -532,6 +537,8 @@ class LoaderComponent(Component):
             kind = "deadbranch"
         if rng.random() < 0.3:
             d = gen.add_case_noise(rng, d)
+        if rng.random() < 0.1:
+            d = gen.near_miss_names(rng, d)
         return {"desc": d, "kind": kind}
 
     def run(self, case):
